@@ -132,3 +132,56 @@ pub fn splice(bytes: &[u8], f: &Field, replacement: &[u8]) -> Vec<u8> {
     v[f.off..f.off + f.len].copy_from_slice(replacement);
     v
 }
+
+/// Alterations of several bytes of `base[off..off+len]` at once that a sloppy comparison might not
+/// notice although every single-byte change is caught: differences that cancel under XOR (the same
+/// bits flipped in two or three bytes), that preserve the byte sum (+1/-1), or that keep the
+/// multiset of bytes (transposition, rotation, reversal).  `dense` = every position, else every 4th
+/// for the sum / triple classes.
+pub fn multi_byte_mutants(base: &[u8], off: usize, len: usize, dense: bool) -> Vec<(String, Vec<u8>)> {
+    let mut out = Vec::new();
+    let end = off + len;
+    if len < 2 {
+        return out;
+    }
+    for i in off..end - 1 {
+        let bit = 1u8 << ((i - off) % 8);
+        let mut v = base.to_vec();
+        v[i] ^= bit;
+        v[i + 1] ^= bit;
+        out.push((format!("pairflip@{i},{}^{bit:02x}", i + 1), v));
+        if base[i] != base[i + 1] {
+            let mut v = base.to_vec();
+            v.swap(i, i + 1);
+            out.push((format!("swap@{i},{}", i + 1), v));
+        }
+        if dense || (i - off) % 4 == 0 {
+            let mut v = base.to_vec();
+            v[i] = v[i].wrapping_add(1);
+            v[i + 1] = v[i + 1].wrapping_sub(1);
+            out.push((format!("plusminus@{i},{}", i + 1), v));
+            if i + 2 < end {
+                let mut v = base.to_vec();
+                v[i] ^= 0x0f;
+                v[i + 1] ^= 0xf0;
+                v[i + 2] ^= 0xff;
+                out.push((format!("triple@{i}"), v));
+            }
+        }
+    }
+    // first and last byte of the field, every bit
+    for b in 0..8 {
+        let mut v = base.to_vec();
+        v[off] ^= 1 << b;
+        v[end - 1] ^= 1 << b;
+        out.push((format!("pairflip@{off},{}^{:02x}", end - 1, 1u8 << b), v));
+    }
+    let mut v = base.to_vec();
+    v[off..end].rotate_left(1);
+    out.push((format!("rotate@{off}+{len}"), v));
+    let mut v = base.to_vec();
+    v[off..end].reverse();
+    out.push((format!("reverse@{off}+{len}"), v));
+    out.retain(|(_, v)| v != base);
+    out
+}
